@@ -34,7 +34,13 @@ RULE = ("hierarchies = every C3-valid base assignment over <=4 classes in which 
         "annotated-only, field()-only, mixed, ClassVar-annotated field(), explicit True/False); class kw_only; per field "
         "default/factory, init, kw_only, explicit/empty alias; field_transformer {ident, reverse, drop, add, kw_only} on "
         "the class under test and on bases; abstract declarations rebuilt through 7 front-end encodings (twins); "
-        "background: slots, validators (user list), field() vs attr.ib, repr/eq on/off.  non-trivial = the class under test "
+        "kind of every user-supplied container (metadata dict / MappingProxyType over a kept dict / "
+        "OrderedDict / user Mapping; validator list / tuple / and_ / list holding and_; converter list / "
+        "tuple / single; on_setattr list / tuple; these= dict / OrderedDict; make_class list / tuple / dict),"
+        " each user-kept object mutated after class creation and every view re-read (fields, fields_dict, "
+        "every class of the hierarchy, subclasses defined before and after the mutation; "
+        "validators/converters/hooks are probed by calling them); background: slots, field() vs attr.ib, "
+        "repr/eq on/off.  non-trivial = the class under test "
         "has an inherited field, a transformer or twins; distinct = distinct JSON case")
 ASSUMPTIONS = [
     "the MRO is CPython's (C3): the real cls.__mro__ is passed into the case as class ids and re-checked by the observer",
@@ -42,7 +48,7 @@ ASSUMPTIONS = [
     "the user's field_transformer is an input: the model applies the same list function the harness installs",
     "Attribute immutability and metadata/validator/these isolation are observed on the real objects (constant in the model)",
     "the defining class of a survivor is observed through a metadata tag / marker annotation type placed by the harness",
-    "attribute lookup getattr(base, '__attrs_attrs__', []) is modelled as 'first class of base's MRO that has its own tuple'",
+    "the MRO collector reads each class's own __attrs_attrs__ (post-K07a repair); the legacy collector's and has()'s getattr lookup is modelled as 'first class of base's MRO that has its own tuple'",
 ]
 LEVEL_TEXT = ("Lean theorems for arbitrary tables of base tuples, MROs, hierarchy sizes and field-list lengths about an "
               "executable model of _transform_attrs / _collect_base_attrs / _collect_base_attrs_broken / _is_class_var / "
@@ -52,8 +58,8 @@ LEVEL_TEXT = ("Lean theorems for arbitrary tables of base tuples, MROs, hierarch
               "keep-last on the model's table = 'far to near, a declaration survives iff no nearer class declares the name'), "
               "C07_views_agree, C07_transformer_exact, C07_counter_sorted, C07_classvar_prefixes_documented (T1 table), "
               "C07_frontends_equal(+_built), C07_legacy_chain (abstract chain tables) and C07_legacy_chain_model (tables built by "
-              "the model for chains of attrs classes), C07_model_meets_spec (every wf case outside K7/K07a), witnesses "
-              "C07_K7_witness, C07_K07a_witness.  The model is tied to /repo by a differential correspondence over real "
+              "the model for chains of attrs classes), C07_model_meets_spec (every wf case outside K7), witness C07_K7_witness, regression "
+              "C07_K07a_fixed (K07a repaired in attrs: plain classes contribute nothing to the MRO collector).  The model is tied to /repo by a differential correspondence over real "
               "classes (exhaustive over a finite hierarchy family of ~236k hierarchies in the thorough tier, sampled "
               "front-ends/options/transformers).  Observed only, not proved: CPython's MRO and attribute lookup, "
               "Attribute.__setattr__ / mappingproxy immutability, isolation from later mutation of user containers, "
@@ -68,14 +74,6 @@ DEFAULT_OPTS = {"hasDefault": False, "init": True, "kwOnly": False, "alias": Non
 # --------------------------------------------------------------------------------------------- observation
 def _fields_list(cls):
     return [B.field_obs(a) for a in attr.fields(cls)]
-
-
-def _snapshot(cls):
-    out = []
-    for a in attr.fields(cls):
-        v = a.validator
-        out.append((dict(a.metadata), None if v is None else (type(v).__name__, len(getattr(v, "_validators", ())))))
-    return out
 
 
 def _views(case, built, leaf):
@@ -130,15 +128,35 @@ def _views(case, built, leaf):
             pass
     obs["setattrKinds"] = sorted(kinds)
     obs["metaWriteKinds"] = sorted(mkinds)
-    # ---- isolation from later mutation of user containers
-    before = _snapshot(leaf)
+    # ---- isolation from later mutation of user containers: snapshot every view, define a subclass, mutate every
+    # user-kept object (metadata dict behind whatever was passed, validator / converter / on_setattr lists, these=
+    # dicts, make_class lists), define another subclass, re-read every view
+    def views():
+        out = {"fields": [B.attr_snapshot(a) for a in attr.fields(leaf)],
+               "fields_dict": [(k, B.attr_snapshot(a)) for k, a in attr.fields_dict(leaf).items()]}
+        for i, cls in enumerate(built["classes"]):
+            if attr.has(cls):
+                out[f"class{i}"] = [B.attr_snapshot(a) for a in attr.fields(cls)]
+        return out
+
+    def subclass(name):
+        deco = attr.s(collect_by_mro=True, repr=False, eq=False) if len(fs) % 2 else attrs.define(slots=False, repr=False, eq=False)
+        try:
+            return deco(type(name, (leaf,), {}))
+        except BaseException as e:  # noqa: BLE001
+            return exc_kind(e)
+
+    def inherited_snapshot(sub):
+        if not isinstance(sub, type):
+            return sub
+        return [[x for j, x in enumerate(B.attr_snapshot(a)) if j != 3] for a in attr.fields(sub)]   # all but `inherited`
+
+    before = views()
+    sub_before = subclass("SubBefore")
+    inh_before = inherited_snapshot(sub_before)
     user = built["ns"]["_user"]
-    for md in user["md"]:
-        md["d"] = 999
-        md["extra"] = 1
-    for vl in user["vl"]:
-        vl.append(lambda i, a, v: None)
-        vl.append(lambda i, a, v: None)
+    for m in user["mutators"]:
+        m()
     for d in user["these"]:
         d["q_added"] = attr.ib()
         for k in list(d)[:1]:
@@ -147,10 +165,24 @@ def _views(case, built, leaf):
         lst.append("q_added")
         lst.reverse()
     after = _fields_list(leaf)
-    snap = _snapshot(leaf)
-    for i, (b, a) in enumerate(zip(before, snap)):
-        if b != a and i < len(after):
-            after[i]["name"] += "!mutated"
+    now = views()
+    sub_after = subclass("SubAfter")
+    leaked = []
+    if now != before:
+        leaked.append("views")
+    if inherited_snapshot(sub_before) != inh_before:
+        leaked.append("subclass-before")
+    if inherited_snapshot(sub_after) != inh_before:
+        leaked.append("subclass-after")
+    if leaked:
+        marker = "!mutated:" + "+".join(leaked)
+        if after:
+            # point at the first field whose snapshot changed (or the first one)
+            idx = next((i for i, (x, y) in enumerate(zip(before["fields"], now["fields"])) if x != y), 0)
+            after[min(idx, len(after) - 1)]["name"] += marker
+        else:
+            after.append({"name": marker, "tag": None, "ttag": None, "inherited": False, "hasDefault": False,
+                          "init": True, "kwOnly": False, "alias": None})
     obs["afterMutation"] = after
     return obs
 
@@ -471,6 +503,12 @@ def base_cfg(rng, shape_bases, rich):
             pc["validators"] = rng.random() < 0.3
             pc["field_fn"] = rng.random() < 0.7
             pc["these_rev"] = rng.random() < 0.7
+            # the KIND of every user-supplied container
+            pc["ck"] = {"md": rng.choice(["dict", "dict", "proxy", "odict", "mapping"]),
+                        "val": rng.choice(["none", "none", "list", "tuple", "and", "list_and"]),
+                        "conv": rng.choice(["none", "none", "list", "tuple", "single"]),
+                        "osa": rng.choice(["none", "none", "list", "tuple"]),
+                        "these": rng.choice(["dict", "odict", "tuple"])}
             pc["explicit_auto_false"] = rng.random() < 0.2
         per.append(pc)
     return {"bases": shape_bases, "per": per}
@@ -612,7 +650,7 @@ def seeds():
         cl = [simple_cls("mro", mros[0], 0, ["x"]), simple_cls("mro", mros[1], 1, []),
               simple_cls("mro", mros[2], 2, ["x"]), simple_cls(leaf_kind, mros[3], 3, [])]
         yield mk_case(cl, {"bases": bases, "per": [{"lean": True}] * 4})
-        # K07a: plain class between
+        # former K07a (repaired): plain class between
         cl = [simple_cls("mro", mros[0], 0, ["x"]), simple_cls("plain", mros[1], 1, []),
               simple_cls("mro", mros[2], 2, ["y"]), simple_cls(leaf_kind, mros[3], 3, [])]
         yield mk_case(cl, {"bases": bases, "per": [{"lean": True}] * 4})
@@ -672,6 +710,13 @@ def shrink(case):
             if isinstance(it["val"], dict) and it["opts"] != dict(DEFAULT_OPTS, tag=it["opts"]["tag"]):
                 it2 = dict(it, opts=dict(DEFAULT_OPTS, tag=it["opts"]["tag"]))
                 yield _with_cls(case, k, dict(c, items=c["items"][:j] + [it2] + c["items"][j + 1:]))
+    defaults = {"md": "dict", "val": "none", "conv": "none", "osa": "none", "these": "dict"}
+    for k, pc in enumerate(case["cfg"]["per"]):
+        for key, dv in defaults.items():
+            if pc.get("ck", {}).get(key, dv) != dv:
+                per = list(case["cfg"]["per"])
+                per[k] = dict(pc, ck=dict(pc["ck"], **{key: dv}))
+                yield dict(case, cfg=dict(case["cfg"], per=per))
     if case["twins"]:
         for j in range(len(case["twins"])):
             yield dict(case, twins=case["twins"][:j] + case["twins"][j + 1:])
